@@ -243,9 +243,12 @@ def boolop(op, items):
 def ite(c, a, b):
     if a is b:
         return a
-    # `x if not c else y` is `y if c else x`
+    # `x if not c else y` is `y if c else x`; likewise for `is not` / `not in` / `!=` conditions
     while c.op == "un" and c.a[0] == "not":
         c = c.a[1]
+        a, b = b, a
+    if c.op == "cmp" and c.a[0] in ("isnot", "notin", "!="):
+        c = cmp({"isnot": "is", "notin": "in", "!=": "=="}[c.a[0]], c.a[1], c.a[2])
         a, b = b, a
     return mk("ite", c, a, b)
 
